@@ -3,6 +3,7 @@ package props
 // C06 - Undo is the exact inverse of a block, to any reorganisation depth.
 
 import (
+	"bytes"
 	"fmt"
 	"testing"
 
@@ -11,7 +12,7 @@ import (
 )
 
 type C06Step struct {
-	Op string `json:"op"` // block | undo
+	Op string `json:"op"` // block | undo | restore (every forest written out and replaced by what its bytes restore to)
 	B  *Block `json:"b,omitempty"`
 }
 
@@ -36,6 +37,10 @@ func genC06(t *rapid.T) C06Case {
 	n := rapid.IntRange(2, lim.maxBlocks+6).Draw(t, "nsteps")
 	for i := 0; i < n; i++ {
 		op := rapid.SampledFrom([]string{"block", "block", "block", "undo", "undo", "redo"}).Draw(t, "op")
+		if len(stack) > 0 && rapid.IntRange(0, 7).Draw(t, "restore") == 0 {
+			// the node is shut down and started again between a block and its undo
+			c.Steps = append(c.Steps, C06Step{Op: "restore"})
+		}
 		if op == "undo" && len(stack) == 0 {
 			op = "block"
 		}
@@ -263,6 +268,25 @@ func runC06(c C06Case) *Result {
 			if fr.shape.emptiesTree {
 				res.count("undo_of_block_emptying_tree", 1)
 			}
+		case "restore":
+			for k, in := range insts {
+				var buf bytes.Buffer
+				if _, err := serialize(in, &buf); err != nil {
+					return res.failf("step %d: %s: writing the forest failed: %v", i, in.Cfg, err)
+				}
+				in2, _, err, perr := restore(in.Cfg, bytes.NewReader(buf.Bytes()))
+				if perr != nil {
+					err = perr
+				}
+				if err != nil {
+					return res.failf("step %d: %s: restoring the forest from its own %d bytes failed: %v", i, in.Cfg, buf.Len(), err)
+				}
+				insts[k] = in2
+			}
+			if err := checkAll(fmt.Sprintf("after write+restore at step %d", i)); err != nil {
+				return res.failf("%v", err)
+			}
+			res.count("restores-between-block-and-undo", 1)
 		default:
 			return res.failf("case error: unknown op %q", st.Op)
 		}
